@@ -111,6 +111,19 @@ mut("router-regex-search", ["C06"], "src/observer/routing/RoutingLevelView.cpp",
 mut("router-notify-prefix", ["C06"], "include/tulz/observer/routing/SubjectRouter.h", "    if (levelView.isLeaf()) {\n        if (m_subject != nullptr) {", "    if (levelView.isLeaf() || m_children.empty()) {\n        if (m_subject != nullptr) {", "a longer pattern reaches the observers of a prefix key")
 mut("router-count-observers", ["C06"], "include/tulz/observer/routing/SubjectRouter.h", "            subject.notify(std::forward<Args>(args)...);\n            return 1;", "            subject.notify(std::forward<Args>(args)...);\n            return subject.hasSubscriptions() ? 1 : 0;", "keys with an empty subject are not counted")
 
+# ---- size thresholds: behaviour that changes above a size no small-scope search reaches
+mut("threshold-ring-modcap-32", ["C04", "C09"], "include/tulz/container/RingBuffer.h",
+    "        auto b = (ssize_t) m_capacity;\n", "        auto b = (ssize_t) m_capacity;\n        if (b >= 32) return a >= b ? a - b : a;      // large buffers: avoid the two divisions\n",
+    "index arithmetic without the negative case for capacities >= 32")
+mut("threshold-array-grow-33", ["C14"], "include/tulz/container/Array.h",
+    "        destroy(size, m_size);\n\n        m_array = static_cast<T*>(realloc(m_array, size * sizeof(T)));\n\n        if (size > m_size)\n            initialize(m_size, size);\n",
+    "        destroy(size, m_size);\n\n        if (size > 32 && size > m_size) {\n            auto fresh = static_cast<T*>(malloc(size * sizeof(T)));\n            std::memcpy(fresh, m_array, size * sizeof(T));\n            free(m_array);\n            m_array = fresh;\n        } else\n        m_array = static_cast<T*>(realloc(m_array, size * sizeof(T)));\n\n        if (size > m_size)\n            initialize(m_size, size);\n",
+    "growing beyond 32 elements copies the new length out of the old block")
+mut("threshold-router-fanout-32", ["C06"], "include/tulz/observer/routing/SubjectRouter.h",
+    "            for (auto & [name, node] : m_children)\n                notifyCount += node.template notify<Args...>(nextLevel, static_cast<Args>(args)...);\n",
+    "            size_t budget = 32;\n            for (auto & [name, node] : m_children) {\n                if (budget-- == 0) break;\n                notifyCount += node.template notify<Args...>(nextLevel, static_cast<Args>(args)...);\n            }\n",
+    "a wildcard level reaches at most 32 children")
+
 # ---- File / Path / DirectoryVisitor
 FI = "src/File.cpp"
 mut("file-size-no-restore", ["C17"], FI, "    fseek(m_file, prevPos, SEEK_SET);\n", "", "size() leaves the position at the end")
